@@ -377,3 +377,10 @@ package panos
 //vc:  assert[C03] at "aB.edit = true" @changedAddressEdited aB == ab.b.addresses[name]
 //vc:  assert[C03] at "aB.needed = true" @missingAddressCreated aB == ab.b.addresses[name] && (!(name in ab.a.addresses) || ab.a.addresses[name] == nil)
 //vc:  assert[C03] at "ab.markAddresses(g.Members)" @membersOfGroupMarked g.needed && arg1 == g.Members
+
+// nameAttr / textAttr: names go into the query string of an API request;
+// they are escaped for that place (query escaping: also '+', '&', '=' ...).
+//vc:func nameAttr
+//vc:  ensures[C03] @nameQueryEscaped result == "[@name='" + url.QueryEscape(n) + "']"
+//vc:func textAttr
+//vc:  ensures[C03] @textQueryEscaped result == "[text()='" + url.QueryEscape(n) + "']"
